@@ -287,6 +287,43 @@ def _c04_o5(W, ob):
     return _m.o5(W, ob)
 
 
+def o5(W, ob):
+    """a handle supplied by the caller indexes session state only on paths that have looked it up or compared it: in every public method of the three session types,
+    an index expression (Vec indexing or a slice bounds check -- also inside the arguments of a logging macro, which run only with a subscriber) whose index IS a
+    `usize` parameter is guarded by a condition that mentions that parameter (`handles.get(&h)` matched, `h < num_players`, ...).  An unknown handle must come back as
+    InvalidRequest, not as an index-out-of-bounds panic."""
+    from .facts import Operand
+    n = 0
+    for f in W.fns():
+        if f.kind == 'closure' or f.derived or not f.is_pub:
+            continue
+        if not any(x in f.path for x in ('P2PSession::', 'SpectatorSession::', 'SyncTestSession::')):
+            continue
+        args = ['arg%d' % i for i in range(2, f.argc + 1) if (f.local_ty(i) or '') == 'usize']
+        if not args:
+            continue
+        cx = W.ctx(f)
+        G = W.guards(f)
+        for b in f.blocks:
+            if b.cleanup:
+                continue
+            t = b.term
+            idx = None
+            if t.k == 'call' and last_seg(t.callee.best) in ('index', 'index_mut') and len(t.args) >= 2:
+                idx = key(cx.expr_operand(t.args[1]))
+            elif t.k == 'assert' and isinstance(t.msg, dict) and t.msg.get('kind') == 'BoundsCheck':
+                idx = key(cx.expr_operand(Operand(t.msg['index'])))
+            if idx not in args:
+                continue
+            n += 1
+            g = G.guard(b.id)
+            ok = bool(g) and all(any(idx in str(a) for a in c) for c in g)
+            ob.check(ok, '%s|raw-handle-index' % short(f.path), '%s indexes with its handle parameter only after validating it' % short(f.path),
+                     '%s indexes session state with the caller-supplied handle `%s` on a path that has not validated it (guard: %s): an unknown or spectator handle '
+                     'panics with index out of bounds instead of returning InvalidRequest' % (short(f.path), idx, dnf_str(g)[:160]), where(f, t.line))
+    ob.require_count(n, 2, 'index sites whose index is a caller-supplied handle')
+
+
 OBLIGATIONS = [
     ('C16.O1', 'documented constraint <-> guard', 'fps != 0; 1 <= max_frames_behind < SPECTATOR_BUFFER_SIZE; catchup_speed >= 1; num_players != 0 with revalidation against the new value; '
      'handle range rules per player type; duplicate handle; every handle in 0..num_players registered; unconstrained setters store unconditionally.', o1),
@@ -298,6 +335,7 @@ OBLIGATIONS = [
     ('C16.O2c', 'advancing before synchronisation is refused (= C12.O4)', 'advance_frame returns NotSynchronized until check_initial_sync has seen every remote AND every spectator endpoint synchronised; see C12.O4', c12.o4),
     ('C16.O3', 'the builder cannot panic', 'panic-capable sites in the call-graph closure of the SessionBuilder methods are discharged by analysis or reviewed for arguments in the claimed range.', o3),
     ('C16.O4', 'no configuration-determined panic in a running session', 'every division / remainder in the crate has a divisor shown non-zero (constant, guard, fixed array, or a configuration invariant the builder establishes); every panicking Duration/Instant subtraction is ordered by a dominating comparison; every overflow-checked unsigned subtraction over configuration values only is guarded. Configuration fields are computed (never written after construction); see rules/confpanics.py', confpanics.rule),
+    ('C16.O5', 'caller-supplied handles index nothing before they are validated', 'in every public session method, an index expression whose index is a usize parameter (also inside the arguments of a logging macro) is guarded by a condition on that parameter: a wrong handle is an InvalidRequest, never an index-out-of-bounds panic', o5),
     ('C16.H', 'helpers the rules above rely on', 'the bodies of the helpers named by this property\'s rules compute what the rules assume (get_cell, registry_counts); see rules/helpers.py', helpers.bundle('get_cell', 'registry_counts')),
     ('C16.W', 'configuration wiring', 'at every call site that passes a field read `x.B` for a parameter `A` the callee has no same-typed parameter `B`; in every struct literal no parameter `B` is stored in field `A` while a same-typed parameter `A` / field `B` exists (builder -> constructor -> endpoint fields: timeouts, window, fps are not crossed); see rules/wiring.py', wiring.rule),
     ('C16.R', 'who may remove', 'every call that takes elements out of a collection this property\'s rules rely on (keyed removal from a map, or bulk / positional removal) is one of the reviewed sites in tables/removals.json; a lookup turned into a removal, a second prune, a clear on another path is reported; see rules/removals.py', removals.rule_for('C16')),
